@@ -1,6 +1,8 @@
 package cross
 
 import (
+	"math"
+	"strconv"
 	"verifgen/api"
 	"verifgen/greq"
 	"verifgen/trace"
@@ -225,6 +227,33 @@ func vhC05(engine int, route int, short int) {
 			a1, t1 := args[1].(int64)
 			return len(args) == 2 && t0 && t1 && a0 == name && a1 == bv
 		}
+	case 8: // Scale(ratio float32 [query], factor *float64 [query]): concrete texts around the edges of both widths
+		ratios := []string{"1.5", "-0", "1e39", "-1e39", "3.4028235e38", "3.5e38", "1e400", "abc", "", "1e-50", "7"}
+		ratio := ratios[symxChoice("ratio", len(ratios))]
+		req.Query = append(req.Query, greq.KV{"ratio", ratio})
+		factors := []string{"2.5", "1e400", "x", "-3"}
+		fk := symxChoice("factor", len(factors)+1)
+		fPresent := fk < len(factors)
+		factor := ""
+		if fPresent {
+			factor = factors[fk]
+			req.Query = append(req.Query, greq.KV{"factor", factor})
+		}
+		// reference: the value is representable in the declared width (strconv's own verdict for that width)
+		r64, rErr := strconv.ParseFloat(ratio, 32)
+		f64, fErr := strconv.ParseFloat(factor, 64)
+		ok = rErr == nil && (!fPresent || fErr == nil)
+		check = func(args []any) bool {
+			a0, t0 := args[0].(float32)
+			a1, t1 := args[1].(*float64)
+			if len(args) != 2 || !t0 || !t1 || math.Float32bits(a0) != math.Float32bits(float32(r64)) {
+				return false
+			}
+			if !fPresent {
+				return a1 == nil
+			}
+			return a1 != nil && math.Float64bits(*a1) == math.Float64bits(f64)
+		}
 	default:
 		symxAssume(false)
 	}
@@ -249,6 +278,9 @@ func vhC05(engine int, route int, short int) {
 func vhC05All(engine int, short int) {
 	vhC05(engine, []int{0, 2, 3, 4, 7}[symxChoice("route", 5)], short)
 }
+
+// floating point parameters (concrete candidate texts; the widths are what is checked)
+func vh_C05_floats_Q() { vhC05(symxChoice("engine", 5), 8, 0) }
 
 func vh_C05_gin_Q()   { vhC05All(0, 2) }
 func vh_C05_echo_Q()  { vhC05All(1, 2) }
